@@ -113,7 +113,9 @@ func runC05(c *core.Ctx, o Options) {
 		}
 		if tl := c.LookupObj("fix", "TimeLayout"); tl != nil {
 			v := ""
-			if cst, ok := tl.(interface{ Val() interface{ ExactString() string } }); ok {
+			if cst, ok := tl.(interface {
+				Val() interface{ ExactString() string }
+			}); ok {
 				_ = cst
 			}
 			if k, ok := tl.(*typesConst); ok {
